@@ -82,6 +82,13 @@ def pendingRefuses (c : Cfg) (n : Node) : Bool :=
   c.maxPending ≠ 0 &&
     (decide (n.store.height - n.hdrWm ≥ c.maxPending) || decide (n.store.height - n.dataWm ≥ c.maxPending))
 
+/-- the header signed with the node's key -/
+def signed (c : Cfg) (sh : SHeader) : SHeader := { sh with sig := Sig.by c.key (payload sh.hdr) }
+
+/-- "append metadata to Data before validating and saving" -/
+def withMeta (d : Data) (h : Header) (lastDataHash : Bytes) : Data :=
+  { d with metadata := some { chainId := h.chainId, height := h.height, time := h.time, lastDataHash := lastDataHash } }
+
 /-- finishing part of the step, common to a fresh block and a re-used pending block -/
 def finish (c : Cfg) (n : Node) (ws : List SW) (sh : SHeader) (d : Data) (lastDataHash : Bytes)
     (ex : ExecResp) : Node × List SW × Outcome :=
@@ -90,14 +97,12 @@ def finish (c : Cfg) (n : Node) (ws : List SW) (sh : SHeader) (d : Data) (lastDa
   | .ok =>
     let root := execRoot n.lastState.appHash d.txs
     let newState := nextState n.lastState sh.hdr root
-    let d' : Data := { d with metadata := some { chainId := sh.hdr.chainId, height := sh.hdr.height,
-                                                 time := sh.hdr.time, lastDataHash := lastDataHash } }
-    let sig := Sig.by c.key (payload sh.hdr)
-    let sh' : SHeader := { sh with sig := sig }
+    let d' : Data := withMeta d sh.hdr lastDataHash
+    let sh' : SHeader := signed c sh
     match execValidate n.lastState sh' d' with
     | some e => (n, ws, .errValidate e)
     | none =>
-      let w1 := SW.saveBlock sh'.hdr.height { sh := sh', data := d', savedSig := sig }
+      let w1 := SW.saveBlock sh'.hdr.height (Block.mk sh' d' sh'.sig)
       let s1 := n.store.apply w1
       let w2 := setHeightW s1 sh'.hdr.height
       let s2 := s1.applyAll w2
